@@ -557,6 +557,28 @@ theorem src_spline_predict_pointwise (pts : List (α × α)) (fc : List (List α
   simp only [List.getD_cons_zero, List.getD_cons_succ]
   exact src_predict_numpy_pointwise pts _ _ mindist forces
 
+/-- **Point by point, vector case (about the regenerated source, no hypotheses).**  Each component of `predict_2d_numpy` at a list of query points
+    is the list of that component's values at each point taken alone. -/
+theorem src_predict_2d_numpy_pointwise (pts : List (α × α)) (fe fn : List α) (mindist poisson : α) (forces : List α) :
+    Gen.predict2dNumpy (pts.map (·.1)) (pts.map (·.2)) fe fn mindist poisson forces
+      = (pts.flatMap (fun p => (Gen.predict2dNumpy [p.1] [p.2] fe fn mindist poisson forces).1),
+         pts.flatMap (fun p => (Gen.predict2dNumpy [p.1] [p.2] fe fn mindist poisson forces).2)) := by
+  induction pts with
+  | nil => simpa using predict_2d_numpy_nil fe fn mindist poisson forces
+  | cons p ps ih =>
+    have h := src_predict_2d_numpy_append [p.1] (ps.map (·.1)) [p.2] (ps.map (·.2)) fe fn mindist poisson forces rfl
+    simp only [List.map_cons, List.singleton_append, List.flatMap_cons] at h ⊢
+    rw [h, ih]
+
+/-- `VectorSpline2D.predict` as regenerated from the source, point by point. -/
+theorem src_vector_spline_predict_pointwise (pts : List (α × α)) (fc : List (List α)) (mindist poisson : α) (forces : List α) (crest : List (List α)) :
+    Gen.vectorSplinePredict fc mindist poisson forces (pts.map (·.1) :: pts.map (·.2) :: crest)
+      = (pts.flatMap (fun p => (Gen.vectorSplinePredict fc mindist poisson forces ([p.1] :: [p.2] :: crest)).1),
+         pts.flatMap (fun p => (Gen.vectorSplinePredict fc mindist poisson forces ([p.1] :: [p.2] :: crest)).2)) := by
+  unfold Gen.vectorSplinePredict
+  simp only [List.getD_cons_zero, List.getD_cons_succ]
+  exact src_predict_2d_numpy_pointwise pts _ _ mindist poisson forces
+
 /-- Every query size is met by the hypotheses (a hundred thousand points, seven forces): premises satisfiable. -/
 example : ((List.replicate 100000 (0 : Nat)).length = (List.replicate 100000 (1 : Nat)).length) := by
   rw [List.length_replicate, List.length_replicate]
